@@ -167,6 +167,10 @@ theorem wf_MucOwnerIq : MucOwnerIq.WF := by decide
 theorem wf_DiscoInfoIq : DiscoInfoIq.WF := by decide
 theorem wf_DiscoItemsIq : DiscoItemsIq.WF := by decide
 theorem wf_MamQueryIq : MamQueryIq.WF := by decide
+theorem wf_Iq : Iq.WF := by decide
+theorem wf_Presence : Presence.WF := by decide +kernel
+theorem wf_Message : Message.WF := by decide +kernel
+theorem wf_JingleRtpEncryption : JingleRtpEncryption.WF := by decide
 
 /-! ## data forms: the value that did not survive before /repo 06b3045 -/
 
@@ -272,6 +276,19 @@ example : ¬ RosterItem.Canon [.str [], .str [], .opt none, .str [], .flag false
     .list [.str "b".toList, .str "a".toList], .absent] := by decide
 example : ¬ RosterItem.Canon [.str [], .str [], .opt none, .str [], .flag false,
     .list [.str "a".toList, .str "a".toList], .absent] := by decide
+/-- IQ envelope: the payload is an uninterpreted tree in the REST; canonical = an element no typed field claims, in the normal form
+`QXmppElement` writes (`normE`) -/
+example : Iq.WF ∧ Iq.Canon [.str "i1".toList, .str [], .str "a@b/<&>".toList, .nat 2,
+    .list [.node (.elem "query".toList [("xmlns".toList, "urn:verif:q".toList), ("a".toList, "<\"&".toList)] [.text "t".toList, .elem "item".toList [] []])],
+    .record [.str [], .opt none, .opt none, .record [.opt none, .str []], .record [.str []]]] := by decide +kernel
+/-- …an `<error/>` element is claimed by the error field, so it is not a canonical member of the rest; nor is a tree that
+`QXmppElement` would rewrite (an attribute with an empty value) -/
+example : ¬ Iq.Canon [.str [], .str [], .str [], .nat 1, .list [.node (.elem "error".toList [] [])],
+    .record [.str [], .opt none, .opt none, .record [.opt none, .str []], .record [.str []]]] := by decide +kernel
+example : ¬ Iq.Canon [.str [], .str [], .str [], .nat 1, .list [.node (.elem "q".toList [("a".toList, [])] [])],
+    .record [.str [], .opt none, .opt none, .record [.opt none, .str []], .record [.str []]]] := by decide +kernel
+/-- presence: signed priority, a conjunctive guard (capabilities need hash, node AND ver), addresses with mandatory jid and type -/
+example : FTy.canon (.sint 31 true) (.int true 128) = true ∧ FTy.canon (.sint 31 true) (.int true 0) = false := by decide
 /-- MUC item: an enum looked up after lower-casing -/
 example : MucItem.WF ∧ MucItem.Canon [.opt (some 4), .str [], .str "nick".toList, .opt (some 3), .record [.str []], .record [.str []]] := by
   decide
